@@ -545,6 +545,16 @@ pub fn preseed(w: &Workspace, l: &Layout, seed: u64) -> std::io::Result<u64> {
     let mut n = 0;
     for id in &all {
         let d = out_dir(w, l, id);
+        if r.chance(1, 8) {
+            // the whole output directory is a stale symlink to a directory elsewhere
+            if let Some(parent) = d.parent() {
+                std::fs::create_dir_all(parent)?;
+            }
+            let _ = std::fs::remove_dir_all(&d);
+            std::os::unix::fs::symlink(l.outside_canary.join("keep"), &d)?;
+            n += 1;
+            continue;
+        }
         std::fs::create_dir_all(d.join("bin"))?;
         for _ in 0..1 + r.usize(5) {
             n += 1;
